@@ -24,8 +24,9 @@ NF(t) == Len(Types[t].fields)
 NV(t, i) == Len(Types[t].fields[i])
 
 Single ==
-    {[kind |-> "single", t |-> t, pick |-> [Nominal(t) EXCEPT ![i] = v], ctx |-> [Home(Types[t].code) EXCEPT !.follow = f]] :
-        <<t, i, v, f>> \in {x \in TIx \X (1..9) \X (1..200) \X Follows : x[2] <= NF(x[1]) /\ x[3] <= NV(x[1], x[2])}}
+    UNION {UNION {{[kind |-> "single", t |-> t, pick |-> [Nominal(t) EXCEPT ![i] = v],
+                    ctx |-> [Home(Types[t].code) EXCEPT !.follow = f]] : v \in 1..NV(t, i), f \in Follows}
+                  : i \in 1..NF(t)} : t \in TIx}
 
 Context ==
     {[kind |-> "context", t |-> t, pick |-> Nominal(t),
@@ -34,9 +35,9 @@ Context ==
 
 PairSet ==
     IF ~Pairs THEN {}
-    ELSE {[kind |-> "pair", t |-> x[1], pick |-> [Nominal(x[1]) EXCEPT ![x[2]] = x[4], ![x[3]] = x[5]], ctx |-> Home(Types[x[1]].code)] :
-            x \in {y \in TIx \X (1..9) \X (1..9) \X (2..60) \X (2..60) :
-                     /\ y[2] < y[3] /\ y[3] <= NF(y[1]) /\ y[4] <= NV(y[1], y[2]) /\ y[5] <= NV(y[1], y[3])}}
+    ELSE UNION {UNION {UNION {{[kind |-> "pair", t |-> t, pick |-> [Nominal(t) EXCEPT ![i] = v, ![j] = w],
+                                ctx |-> Home(Types[t].code)] : v \in 2..NV(t, i), w \in 2..NV(t, j)}
+                              : j \in (i + 1)..NF(t)} : i \in 1..NF(t)} : t \in TIx}
 
 \* the inputs of TlvLoop (only the last header may lie), for every carrier
 TlvLists ==
